@@ -28,7 +28,8 @@ def gen_cases(tier, seed):
     for mod, cls in schema.all_classes():
         cases.append({"id": "%s.%s" % (mod.__name__, cls.__name__), "sig": [mod.__name__, cls.__name__],
                       "module": mod.__name__, "cls": cls.__name__, "shapes": shapes})
-    for order in ["forward", "reverse", "bases-first", "derived-first"] + ["shuffled-%d" % k for k in range(2 if tier == "quick" else 12)]:
+    # (after-refused-documents: the same sweep in a thread that has seen a number of documents the typed parser refuses half way through)
+    for order in ["forward", "reverse", "bases-first", "derived-first", "after-refused-documents"] + ["shuffled-%d" % k for k in range(2 if tier == "quick" else 12)]:
         cases.append({"id": "sweep-%s" % order, "sig": ["sweep", order], "kind": "sweep", "order": order})
     return cases
 
@@ -167,6 +168,9 @@ def run_case(case, ctx):
         elif case["order"] == "derived-first":
             order.sort(key=lambda i: (-len(pairs[i][1].__mro__), i))
         viol, counters, sigs = [], {}, []
+        if case["order"] == "after-refused-documents":
+            _feed_refused(counters)
+            _deep_instances(viol, counters)
         for i in order:
             mod, cls = pairs[i]
             sub = {"id": "%s.%s" % (mod.__name__, cls.__name__), "module": mod.__name__, "cls": cls.__name__, "shapes": 1}
@@ -184,6 +188,52 @@ def run_case(case, ctx):
         return {"outcome": "violations" if viol else "roundtrip-ok", "nontrivial": bool(sigs), "violations": list(uniq.values())[:12], "counters": counters,
                 "sigs": sigs, "evals": counters.get("roundtrips", 0), "obs": {"order": case["order"], "classes": len(order)}}
     return check_class(case, ctx, case["id"])
+
+
+def _feed_refused(counters):
+    """documents the typed parser gives up on somewhere below the root (a child that may occur once occurs twice, at several depths; a typed
+    AttributeValue whose text is not of its type): what such a refusal leaves behind in the thread must not matter to what is parsed next"""
+    import saml2_tophat
+    from saml2_tophat import samlp, saml
+    P, A = 'xmlns:samlp="%s" xmlns:saml="%s" xmlns:xs="http://www.w3.org/2001/XMLSchema" xmlns:xsi="http://www.w3.org/2001/XMLSchema-instance"' % (SAMLP_NS, SAML_NS), 'Version="2.0" IssueInstant="2020-01-01T00:00:00Z"'
+    subj = '<saml:Subject><saml:NameID>a</saml:NameID></saml:Subject>'
+    docs = [
+        (samlp.Response, '<samlp:Response %s ID="r" %s><samlp:Status><samlp:StatusCode Value="x"/></samlp:Status><samlp:Status><samlp:StatusCode Value="y"/></samlp:Status></samlp:Response>' % (P, A)),
+        (samlp.Response, '<samlp:Response %s ID="r" %s><saml:Assertion ID="a" %s><saml:Issuer>i</saml:Issuer>%s%s</saml:Assertion></samlp:Response>' % (P, A, A, subj, subj)),
+        (samlp.Response, '<samlp:Response %s ID="r" %s><saml:Assertion ID="a" %s><saml:Issuer>i</saml:Issuer><saml:Advice><saml:Assertion ID="b" %s><saml:Issuer>i</saml:Issuer>%s%s</saml:Assertion></saml:Advice></saml:Assertion></samlp:Response>' % (P, A, A, A, subj, subj)),
+        (saml.Assertion, '<saml:Assertion %s ID="a" %s><saml:Issuer>i</saml:Issuer><saml:AttributeStatement><saml:Attribute Name="n"><saml:AttributeValue xsi:type="xs:boolean">maybe</saml:AttributeValue></saml:Attribute></saml:AttributeStatement></saml:Assertion>' % (P, A)),
+        (saml.Assertion, '<saml:Assertion %s ID="a" %s><saml:Issuer>i</saml:Issuer><saml:AttributeStatement><saml:Attribute Name="n"><saml:AttributeValue xsi:type="xs:integer">one</saml:AttributeValue></saml:Attribute></saml:AttributeStatement></saml:Assertion>' % (P, A)),
+        (samlp.AuthnRequest, '<samlp:AuthnRequest %s ID="q" %s><saml:Issuer>i</saml:Issuer><saml:Issuer>j</saml:Issuer></samlp:AuthnRequest>' % (P, A)),
+    ]
+    for k in range(10):
+        for cls, text in docs:
+            try:
+                r = saml2_tophat.create_class_from_xml_string(cls, text)
+                counters["refusal_candidates_parsed:" + cls.__name__] = counters.get("refusal_candidates_parsed:" + cls.__name__, 0) + int(r is not None)
+            except Exception:
+                counters["refused_documents_fed"] = counters.get("refused_documents_fed", 0) + 1
+
+
+def _deep_instances(viol, counters):
+    """instances nested far deeper than everyday messages (a chain of StatusCodes, Advice inside Advice): nothing in the property bounds depth"""
+    import saml2_tophat
+    from saml2_tophat import samlp, saml
+    for depth in (20, 70, 150):
+        sc = samlp.StatusCode(value="urn:x:level-%d" % depth)
+        for i in range(depth - 1, 0, -1):
+            sc = samlp.StatusCode(value="urn:x:level-%d" % i, status_code=sc)
+        inst = samlp.Status(status_code=sc)
+        counters["deep_instances"] = counters.get("deep_instances", 0) + 1
+        try:
+            text = inst.to_string()
+            back = saml2_tophat.create_class_from_xml_string(samlp.Status, text)
+            n, cur = 0, back.status_code if back is not None else None
+            while cur is not None:
+                n, cur = n + 1, cur.status_code
+            if n != depth or back.to_string() != text:
+                viol.append({"key": "C12/roundtrip-differs:deep-nesting", "what": "a chain of %d nested StatusCodes comes back %d deep" % (depth, n)})
+        except Exception as exc:
+            viol.append({"key": "C12/parse-of-own-output-raised:" + type(exc).__name__, "what": "a chain of %d nested StatusCodes: %r" % (depth, exc)})
 
 
 def check_class(case, ctx, rng_key):
